@@ -27,6 +27,9 @@ var _ Sink = &sinkLinux{}
 
 // NewSinkLinux returns a new sinkLinux implementing packet sink
 func NewSinkLinux(addr netip.Addr) (Sink, error) {
+	if s, ok, err := verifSink(addr); ok {
+		return s, err
+	}
 	var domain, protocol, hdrincl int
 	switch {
 	case addr.Is4():
